@@ -18,7 +18,7 @@ R5 sufficiency: adder int >= max(i1, i2) + 1, frac >= max(f1, f2), sign =
 from fractions import Fraction as F
 
 from ..loader import AnalysisError
-from ..pe import PE, Tensor, Obj, PyRaise, ClassRef, explore, Func
+from ..pe import PE, Tensor, Obj, PyRaise, ClassRef, explore, Func, Mock
 from ..qir import Fwd, simplify_app, mk_app, Eval, Env
 from ..nf import NF, show
 from ..vset import VS
@@ -360,6 +360,133 @@ def rule_siblings(rep, repo):
                   instance=cfg)
 
 
+def rule_factories_keep_their_hands_off(rep, repo):
+  """R8: the adder / accumulator / merge factories derive a NEW type: the
+  operand types handed in keep their fields, the result is none of the
+  operand objects, and a second request on the same factory leaves the
+  first result alone (the data-type map hands the same operand objects to
+  several factories and keeps every result)."""
+  af = repo.module(AF)
+  cf = repo.module(CF)
+  mf = repo.module(MF)
+  mg = repo.module(MG)
+  fields = ("mode", "bits", "int_bits", "is_signed", "max_val_po2", "name")
+
+  def snap(q):
+    return {f_: q.attrs.get(f_) for f_ in fields}
+
+  def operand(pe, kind, tag, bits, ib):
+    q = ta.make_operand(pe, repo, kind, tag)
+    if kind.startswith("fixed"):
+      q.attrs["bits"], q.attrs["int_bits"] = bits, ib
+    elif kind.startswith("po2"):
+      q.attrs["bits"] = q.attrs["int_bits"] = bits
+    return q
+  n = 0
+  unit = "%s::IAdder.make_quantizer" % af.relpath
+  rep.unit(unit)
+  loc = af.loc(af.classes["IAdder"].node)
+  for k1, k2 in (("fixed_s", "fixed_s"), ("fixed_s", "fixed_u"),
+                 ("po2_s", "fixed_s"), ("fixed_u", "po2_u"),
+                 ("po2_s", "po2_s"), ("ternary", "fixed_s"),
+                 ("binary01", "po2_s")):
+    pe = PE(repo)
+    cfg = "IAdder.make_quantizer(%s, %s) twice" % (k1, k2)
+    try:
+      fac = pe.call(pe.lookup_global("IAdder", af), [], {})
+      a1, a2 = operand(pe, k1, "1", 6, 2), operand(pe, k2, "2", 5, 1)
+      s1, s2 = snap(a1), snap(a2)
+      r1 = pe.call(pe.getattr(fac, "make_quantizer"), [a1, a2], {})
+      o1 = r1.attrs.get("output")
+      before = snap(o1)
+      b1, b2 = operand(pe, k1, "1", 3, 0), operand(pe, k2, "2", 2, 0)
+      r2 = pe.call(pe.getattr(fac, "make_quantizer"), [b1, b2], {})
+    except PyRaise as e:
+      rep.fail("R8", unit, "factory-raises", "%s raises %s" % (cfg, e),
+               loc=loc, instance=cfg)
+      continue
+    n += 1
+    rep.check(snap(a1) == s1 and snap(a2) == s2, "R8", unit,
+              "operand-modified",
+              "%s: the operand types became %r / %r (were %r / %r)" % (
+                  cfg, snap(a1), snap(a2), s1, s2), loc=loc, instance=cfg)
+    rep.check(all(o1 is not q for q in (a1, a2, b1, b2)) and
+              o1 is not r2.attrs.get("output") and snap(o1) == before, "R8",
+              unit, "result-shared-or-changed",
+              "%s: the first result is %r after the second request (was "
+              "%r)%s" % (cfg, snap(o1), before, "; it is one of the operand "
+                         "objects" if any(o1 is q for q in (a1, a2, b1, b2))
+                         else ""), loc=loc, instance=cfg)
+  unit = "%s::AccumulatorFactory.make_accumulator" % cf.relpath
+  rep.unit(unit)
+  loc = cf.loc(cf.classes["AccumulatorFactory"].node)
+  for kw, kx in (("fixed_s", "fixed_s"), ("po2_s", "fixed_s"),
+                 ("po2_s", "po2_s"), ("ternary", "fixed_u")):
+    pe = PE(repo)
+    cfg = "make_accumulator(..., %s x %s) twice" % (kw, kx)
+    try:
+      mfac = pe.call(pe.lookup_global("MultiplierFactory", mf), [], {})
+      m = pe.call(pe.getattr(mfac, "make_multiplier"), [
+          operand(pe, kw, "w", 5, 1), operand(pe, kx, "x", 6, 2)], {})
+      ms = snap(m.attrs["output"])
+      afac = pe.call(pe.lookup_global("AccumulatorFactory", cf), [], {})
+      acc1 = pe.call(pe.getattr(afac, "make_accumulator"),
+                     [[3, 3, 8, 4], m], {"use_bias": False})
+      o1 = acc1.attrs.get("output")
+      before = snap(o1)
+      acc2 = pe.call(pe.getattr(afac, "make_accumulator"),
+                     [[1, 1, 2, 4], m], {"use_bias": True})
+    except PyRaise as e:
+      rep.fail("R8", unit, "factory-raises", "%s raises %s" % (cfg, e),
+               loc=loc, instance=cfg)
+      continue
+    n += 1
+    rep.check(snap(m.attrs["output"]) == ms, "R8", unit, "operand-modified",
+              "%s: the multiplier's output type became %r (was %r)" % (
+                  cfg, snap(m.attrs["output"]), ms), loc=loc, instance=cfg)
+    rep.check(o1 is not m.attrs["output"] and o1 is not acc2.attrs.get(
+        "output") and snap(o1) == before, "R8", unit,
+              "result-shared-or-changed",
+              "%s: the first accumulator type is %r after the second "
+              "request (was %r)" % (cfg, snap(o1), before), loc=loc,
+              instance=cfg)
+  unit = "%s::MergeFactory.make_quantizer" % mg.relpath
+  rep.unit(unit)
+  loc = mg.loc(mg.classes["MergeFactory"].node)
+  for layer_type in ("Add", "Maximum", "Concatenate", "Average"):
+    pe = PE(repo)
+    cfg = "MergeFactory.make_quantizer(..., %r) twice" % layer_type
+    try:
+      fac = pe.call(pe.lookup_global("MergeFactory", mg), [], {})
+      ops = [operand(pe, "fixed_s", "1", 6, 2), operand(pe, "fixed_s", "2",
+                                                        4, 3)]
+      snaps = [snap(q) for q in ops]
+      edges = [(q, Mock("edge", {})) for q in ops]
+      r1 = pe.call(pe.getattr(fac, "make_quantizer"), [edges, layer_type],
+                   {})
+      o1 = r1.attrs.get("output")
+      before = snap(o1)
+      ops2 = [operand(pe, "fixed_s", "1", 3, 0), operand(pe, "fixed_s", "2",
+                                                         2, 1)]
+      r2 = pe.call(pe.getattr(fac, "make_quantizer"),
+                   [[(q, Mock("edge", {})) for q in ops2], layer_type], {})
+    except PyRaise as e:
+      rep.fail("R8", unit, "factory-raises", "%s raises %s" % (cfg, e),
+               loc=loc, instance=cfg)
+      continue
+    n += 1
+    rep.check([snap(q) for q in ops] == snaps, "R8", unit,
+              "operand-modified", "%s: operand types became %r (were %r)" % (
+                  cfg, [snap(q) for q in ops], snaps), loc=loc, instance=cfg)
+    rep.check(all(o1 is not q for q in ops + ops2) and
+              o1 is not r2.attrs.get("output") and snap(o1) == before, "R8",
+              unit, "result-shared-or-changed",
+              "%s: the first result is %r after the second request (was "
+              "%r)" % (cfg, snap(o1), before), loc=loc, instance=cfg)
+  if n < 12:
+    raise AnalysisError("instance-count only %d factory sequences" % n)
+
+
 def run(rep, repo, tier):
   DOM.clear()
   DOM.update(DOM_THOROUGH if tier == "thorough" else DOM_QUICK)
@@ -373,6 +500,8 @@ def run(rep, repo, tier):
   rule_accumulator(rep, repo)
   rule_merge(rep, repo)
   rule_siblings(rep, repo)
+  rule_factories_keep_their_hands_off(rep, repo)
+  rep.require_instances("R8", 24)
   rep.require_instances("R6", 40)
   # R7: get_min_max_exp (trusted by the po2 adders / accumulators) against
   # the qkeras po2 quantizers' own exponent sets (rule shared with C18)
